@@ -51,7 +51,7 @@ def run(ctx):
         if rs is None or not rs.ok: continue
         done += 1
         try: G[r.name] = mgrid(rs.only().ret, m['l'], 4)
-        except AssertionError as e:
+        except (AssertionError, KeyError, ValueError, TypeError, IndexError, ZeroDivisionError, AttributeError) as e:
             ctx.ob('c09/%s/paths' % r.name[2:], False, 'branch-free', r.code, 'one path', str(e))
     I4 = ident(4); Z = C(0); O = C(1)
     for r in roots:
